@@ -38,4 +38,14 @@ theorem applyOne_same (ts : List RawTask) (o : Override) (t : RawTask) (h : ts[o
   unfold applyOne
   rw [List.getElem?_map, List.getElem?_zipIdx, h]
   cases o.effort <;> cases o.start <;> cases o.stop <;> simp
+/-- overrides that name no task of the project change nothing -/
+theorem foldl_applyOne_void (ovs : List Override) (ts : List RawTask) (h : ∀ o ∈ ovs, ts.length ≤ o.task) :
+    ovs.foldl applyOne ts = ts := by
+  apply List.ext_getElem?
+  intro i
+  by_cases hi : i < ts.length
+  · exact foldl_applyOne_other ovs ts i (fun o ho heq => by have := h o ho; omega)
+  · have h1 : (ovs.foldl applyOne ts)[i]? = none := by
+      rw [List.getElem?_eq_none_iff, foldl_applyOne_length]; omega
+    rw [h1, List.getElem?_eq_none_iff.mpr (by omega)]
 end SP
